@@ -4,6 +4,7 @@ import (
 	"fmt"
 	"math"
 	"math/big"
+	"strings"
 
 	spg "go.1password.io/spg"
 
@@ -54,6 +55,23 @@ var c07Panel = []spg.CharRecipe{
 	{Length: 255, AllowChars: "語🙂é", RequireSets: []string{"語"}},
 	{Length: 6, Allow: spg.Letters, Require: spg.Uppers, RequireSets: []string{"ABC", "AXY"}},
 	{Length: 12, Allow: spg.Digits, Require: spg.Digits, RequireSets: []string{"0", "01", "012"}},
+	{Length: 3, AllowChars: cjkRange(5000)},
+	{Length: 4, AllowChars: cjkRange(5000), Require: spg.Digits},
+	{Length: 2, AllowChars: cjkRange(66000)},
+}
+
+// cjkRange returns n distinct characters starting at U+4E00 (skipping the surrogate block).
+func cjkRange(n int) string {
+	var b strings.Builder
+	r := rune(0x4e00)
+	for i := 0; i < n; i++ {
+		if r >= 0xd800 && r <= 0xdfff {
+			r = 0xe000
+		}
+		b.WriteRune(r)
+		r++
+	}
+	return b.String()
 }
 
 // reqPatternRecipe builds a recipe with k required sets in a chosen overlap pattern.
